@@ -1,7 +1,7 @@
 (* C05: STAM JSON round trip (property theorems; proofs in Proofs/StamJson*.v). *)
 From Coq Require Import List NArith ZArith.
 Import ListNotations.
-From Stam Require Import Model.Offset Model.Json Model.TempId Model.StamJson Spec.StamJsonSpec Proofs.StamJson.
+From Stam Require Import Model.Offset Model.Json Model.TempId Model.StamJson Spec.StamJsonSpec Proofs.StamJson Proofs.StamJsonSave.
 
 (* (b) the value codec: all seven value types, lists nested to any depth *)
 Theorem C05_value_codec : forall v, parse_val (json_of_val v) = Some v.
@@ -23,6 +23,25 @@ Proof. exact parse_json_of_target. Qed.
 (* the whole store document is read back as the builders it was written from *)
 Theorem C05_document_codec : forall b, bstore_ok b -> parse_bstore (json_of_bstore b) = Some b.
 Proof. exact parse_json_of_bstore. Qed.
+
+(* saving repeatedly: if every operation flags the stand-off members whose file content it
+   changes (the contract of the `changed` flags), then after ANY history of modifications and
+   saves a save leaves every stand-off file of the current store with its current content;
+   flushing only the flagged files gives the same disk as rewriting all of them *)
+Theorem C05_save_modify_save : forall st current,
+  Reached st current -> NoDup (map fst current) ->
+  forall f c, file_get current f = Some c -> file_get (fs_disk (flush current st)) f = Some c.
+Proof. exact save_after_any_history. Qed.
+
+Theorem C05_flags_are_enough : forall st current, NoDup (map fst current) -> Clean st current ->
+  forall g, file_get (fs_disk (flush current st)) g = file_get (rewrite_all current (fs_disk st)) g.
+Proof. exact flush_is_rewrite_all. Qed.
+
+Theorem C05_histories_with_saves : forall (S X : Type) (step : S -> X -> S) (want : S -> files),
+  (forall s, NoDup (map fst (want s))) ->
+  forall ops s st, Reached st (want s) ->
+  Reached (snd (save_run step want ops s st)) (want (fst (save_run step want ops s st))).
+Proof. exact @save_run_reached. Qed.
 
 Example C05_nonvacuous :
   parse_val (json_of_val (XList [XInt (-3)%Z; XFix 1500%Z; XStr [34%N; 128512%N]; XList [XNull; XDate [50%N]]; XBool true]))
